@@ -48,6 +48,14 @@ func (c *Crew) NewTimersSpec() *core.Spec {
 		return acc
 	}
 
+	// failed notes the error of a failed request.  The bindings of
+	// the request ("?id" ...) must not stay: back at "start" they
+	// would be part of the patterns, and this machine would ignore
+	// every later request that doesn't have the same id.
+	failed := func(bs match.Bindings, err string) *core.Execution {
+		return core.NewExecution(onlyTimers(bs).Extend("error", err))
+	}
+
 	spec := &core.Spec{
 		Name: "timers",
 		Doc:  "A machine that makes in-memory timers that send messages.",
@@ -74,35 +82,35 @@ func (c *Crew) NewTimersSpec() *core.Spec {
 					F: func(ctx context.Context, bs match.Bindings, props core.StepProps) (*core.Execution, error) {
 						x, have := bs["?in"]
 						if !have {
-							return core.NewExecution(bs.Extend("error", "no in")), nil
+							return failed(bs, "no in"), nil
 						}
 						in, is := x.(string)
 						if !is {
-							return core.NewExecution(bs.Extend("error", fmt.Sprintf("non-string in: %T %#v", x, x))), nil
+							return failed(bs, fmt.Sprintf("non-string in: %T %#v", x, x)), nil
 						}
 
 						d, err := time.ParseDuration(in)
 						if err != nil {
 							msg := fmt.Sprintf("bad in '%s': %v", in, err)
-							return core.NewExecution(bs.Extend("error", msg)), nil
+							return failed(bs, msg), nil
 						}
 
 						x, have = bs["?id"]
 						if !have {
-							return core.NewExecution(bs.Extend("error", "no id")), nil
+							return failed(bs, "no id"), nil
 						}
 						id, is := x.(string)
 						if !is {
-							return core.NewExecution(bs.Extend("error", fmt.Sprintf("non-string id: %T %#v", x, x))), nil
+							return failed(bs, fmt.Sprintf("non-string id: %T %#v", x, x)), nil
 						}
 
 						msg, have := bs["?msg"]
 						if !have {
-							return core.NewExecution(bs.Extend("error", "no message")), nil
+							return failed(bs, "no message"), nil
 						}
 
 						if err = c.timers.Add(ctx, id, msg, d); err != nil {
-							return core.NewExecution(bs.Extend("error", err.Error())), nil
+							return failed(bs, err.Error()), nil
 						}
 
 						c.timers.changed()
@@ -125,15 +133,15 @@ func (c *Crew) NewTimersSpec() *core.Spec {
 					F: func(ctx context.Context, bs match.Bindings, props core.StepProps) (*core.Execution, error) {
 						x, have := bs["?id"]
 						if !have {
-							return core.NewExecution(bs.Extend("error", "no id")), nil
+							return failed(bs, "no id"), nil
 						}
 						id, is := x.(string)
 						if !is {
-							return core.NewExecution(bs.Extend("error", fmt.Sprintf("non-string id: %T %#v", x, x))), nil
+							return failed(bs, fmt.Sprintf("non-string id: %T %#v", x, x)), nil
 						}
 
 						if err := c.timers.Cancel(ctx, id); err != nil {
-							return core.NewExecution(bs.Extend("error", err.Error())), nil
+							return failed(bs, err.Error()), nil
 						}
 
 						c.timers.changed()
